@@ -52,6 +52,10 @@ type Case struct {
 	// ECONNREFUSED) is inserted at position Dead-1 (mod Dests+1) of the host list. Every live
 	// destination, before or after it, must still get everything exactly once.
 	Dead int `json:"dead,omitempty"`
+	// OtherMS > 0: ANOTHER M3 reporter of the same process is created OtherMS milliseconds before
+	// this one and stays open throughout (reporters must not share state such as a clock: the
+	// timestamps of this reporter are bounded by ITS construction)
+	OtherMS int `json:"otherMS,omitempty"`
 }
 
 func tagStr() *rapid.Generator[pbt.S] {
@@ -99,6 +103,9 @@ func gen(t *rapid.T) Case {
 			ops = append(ops, op)
 		}
 		c.Producers = append(c.Producers, ops)
+	}
+	if rapid.IntRange(0, 7).Draw(t, "other?") == 0 {
+		c.OtherMS = rapid.IntRange(3, 40).Draw(t, "otherMS")
 	}
 	if rapid.IntRange(0, 3).Draw(t, "dead?") == 0 {
 		c.Dead = rapid.IntRange(1, 4).Draw(t, "dead")
@@ -158,6 +165,20 @@ func run(c Case) (pbt.Outcome, error) {
 	idName, bucketName := "bucketid", "bucket"
 	if c.IDName != "" {
 		idName, bucketName = c.IDName, c.BucketName
+	}
+	if c.OtherMS > 0 {
+		osink, err := udpsink.New()
+		if err != nil {
+			return out, fmt.Errorf("harness: %v", err)
+		}
+		defer osink.Close()
+		other, err := m3.NewReporter(m3.Options{HostPorts: []string{osink.Addr}, Service: "other", Env: "test", Protocol: proto})
+		if err != nil {
+			return out, fmt.Errorf("harness: NewReporter (other): %v", err)
+		}
+		defer other.Close()
+		other.AllocateCounter("other", nil).ReportCount(1)
+		time.Sleep(time.Duration(c.OtherMS) * time.Millisecond)
 	}
 	tConstructed := time.Now().UnixNano()
 	r, err := m3.NewReporter(m3.Options{HostPorts: addrs, Service: "svc", Env: "test", CommonTags: c.Common.Std(), Protocol: proto,
@@ -387,6 +408,9 @@ func run(c Case) (pbt.Outcome, error) {
 	}
 	if c.Dead > 0 {
 		out.Classes = append(out.Classes, fmt.Sprintf("dead-destination-after-%d-live", deadPos))
+	}
+	if c.OtherMS > 0 {
+		out.Classes = append(out.Classes, "another-reporter-open")
 	}
 	if math.IsNaN(0) {
 		out.Classes = nil
